@@ -111,7 +111,7 @@ class Documents(HypPart):
 
     def excludes(self):
         # writer switches that remove the input classes of open findings (see known_findings.json)
-        return ['lazy_with_setext', 'lazy_after_indented', 'adjacent_lists', 'empty_last_item_then_sibling', 'cell_backslash_pipe']
+        return ['lazy_with_setext', 'lazy_after_indented', 'adjacent_lists', 'empty_last_item_then_sibling']
 
 
 CURATED = [
